@@ -20,11 +20,16 @@ def check_no_clobber(repo, rep, rule='C15.V1'):
     rep.analysed(f)
     hier = exc_hierarchy(repo)
 
+    REMOVERS = ('os.remove', 'os.unlink', 'os.rename', 'os.replace', 'os.renames', 'shutil.move', 'shutil.rmtree', 'os.rmdir',
+                'os.truncate', 'shutil.copy', 'shutil.copyfile', 'shutil.copy2')
+
     def ev(call, callee, client, state):
         if callee in ('open', 'io.open', 'os.open'):
             return 'open'
         if callee == 'os.path.exists':
             return 'exists'
+        if callee in REMOVERS:
+            return 'remove'
         return None
 
     def raises(node, client, state):
@@ -56,6 +61,22 @@ def check_no_clobber(repo, rep, rule='C15.V1'):
         if path not in proven:
             probs.append('open(%s, %s) truncates the file it names, but the name proven unused is %s: storing the same SOP '
                          'instance UID twice overwrites the first file' % (path, mode, proven[-1] if proven else 'none'))
+    # nothing already in the directory is removed, renamed or copied over: such a call may only name a file this very call
+    # created (exclusively) on the path that leads to it -- e.g. to take back a half-written instance
+    n_rm = 0
+    for e, s in c.log:
+        if e.kind != 'remove':
+            continue
+        n_rm += 1
+        victim = e.args[-1] if e.callee in ('shutil.copy', 'shutil.copyfile', 'shutil.copy2') else (e.args[0] if e.args else '?')
+        created = [o for o in s.trail if o.kind == 'open' and o.args and o.args[0] == victim
+                   and ('x' in (o.args[1] if len(o.args) > 1 else dict(o.kwargs).get('mode', "'r'")) or 'O_EXCL' in ' '.join(o.args))]
+        if not created:
+            probs.append('%s(%s) at line %d runs on a path on which this call has not created that file (%s): a file that was stored '
+                         'before is removed / replaced' % (e.callee, ', '.join(e.args), e.line,
+                                                           'after the exclusive open failed' if any(c_.startswith('exc:') for c_ in e.conds)
+                                                           else 'no exclusive open of that name precedes it'))
+    rep.notes['removals_checked'] = n_rm
     rep.check(not probs, rule, '__init__:_get_storage_file:no-clobber', f.loc(),
               'the file opened for writing is created exclusively or is the name proven absent (%d open paths)' % len(opens),
               '; '.join(sorted(set(probs))))
